@@ -243,7 +243,30 @@ def _r2(run, st):
     project = run.project
     cfg, f = st.cfg, st.func
     sites = _status_sites(project, st)
-    site_ids = {n.id for n, how in sites}
+    # a status check whose exception is caught by a handler of the very try it sits in (one that carries on) reports nothing
+    site_ids = set()
+    for n_, how in sites:
+        swallowed = False
+        raised = set()
+        for c_ in cfg.calls_at(n_):
+            tgt_ = common.resolve_callee(project, f, c_)
+            if tgt_ is not None:
+                raised |= common.raised_classes(project, tgt_)
+        for x_ in ast.walk(n_.ast) if n_.ast is not None else []:
+            if isinstance(x_, ast.Raise) and x_.exc is not None:
+                d_ = dotted(x_.exc.func if isinstance(x_.exc, ast.Call) else x_.exc)
+                if d_:
+                    raised.add(d_.split(".")[-1])
+        for s_, blk in enclosing_stmts(f.node, n_.ast):
+            if isinstance(s_, ast.Try) and blk == "body":
+                for h_ in s_.handlers:
+                    if any(common.handler_catches_class(h_, r_) for r_ in (raised or {"Exception"})):
+                        hn_ = [x for x in cfg.nodes if x.kind == "except" and x.ast is h_]
+                        # does the handler carry on (reach the function exit or a loop head) rather than re-raise?
+                        if hn_ and (cfg.exit.id in cfg.reachable(hn_[0].id, skip_labels=("exc",)) or any(cfg.nodes[i_].kind == "loop" for i_ in cfg.reachable(hn_[0].id, skip_labels=("exc",)))):
+                            swallowed = True
+        if not swallowed:
+            site_ids.add(n_.id)
     facts = dict(stage=st.name)
     n_waits = 0
     # (i) polling loops: while True around a get whose Empty handler continues
@@ -266,8 +289,8 @@ def _r2(run, st):
                     hn = [x for x in cfg.nodes if x.kind == "except" and x.ast is h]
                     if not hn:
                         continue
-                    # from the handler, can the loop head be reached again without a liveness check?
-                    if _reaches_unchecked(cfg, f, t, hn[0].id, lh.id, site_ids):
+                    # from the handler, can the receive be reached again without an (effective) liveness check?
+                    if _reaches_unchecked(cfg, f, t, hn[0].id, n.id, site_ids):
                         run.violated("C19.R2", f, h, "polling loop: the handler at line %d goes back to waiting on %s without "
                                      "checking that the workers are still alive; if a worker died the completion it owed never "
                                      "arrives and the loop never ends" % (h.lineno, qv), kind="poll-without-liveness", **facts)
@@ -424,6 +447,9 @@ def _r3_handlers(run, func, role, protocol_calls):
                 run.holds("C19.R3", func, h, "%s: handler guards queue/bookkeeping calls only" % role, function=func.short)
             elif always_raises:
                 run.holds("C19.R3", func, h, "%s: handler re-raises" % role, function=func.short)
+            elif _only_uncaught_status_checks(run.project, func, h, [c for c in body_calls if not ((callee_attr(c) in _BENIGN_TRY_CALLS) or any(c is p for p in protocol_calls))]):
+                run.holds("C19.R3", func, h, "%s: besides queue/bookkeeping calls the try body only runs worker-status checks, whose exception class the handler does not catch" % role,
+                          function=func.short)
             else:
                 what = sorted({callee_attr(c) or "?" for c in body_calls} - _BENIGN_TRY_CALLS)
                 run.violated("C19.R3", func, h, "%s: the handler at line %d can swallow an exception raised by %s" % (
@@ -437,6 +463,24 @@ def _r3_handlers(run, func, role, protocol_calls):
                         n += 1
     if n == 0:
         run.holds("C19.R3", func, None, "%s: no exception handler at all (errors propagate)" % role, function=func.short)
+
+
+def _only_uncaught_status_checks(project, func, handler, calls):
+    """Every remaining call of the try body is a project helper that inspects worker exit codes and raises, and none of the
+    exception classes it raises is caught by *handler*."""
+    if not calls:
+        return False
+    for c in calls:
+        tgt = common.resolve_callee(project, func, c)
+        if tgt is None:
+            return False
+        summ = common.summarize(project, tgt)
+        if not (any({"each:attr:exitcode", "attr:exitcode"} & es for p_, es in summ.items() if p_ != "<fn>") and "raises" in summ.get("<fn>", ())):
+            return False
+        raised = common.raised_classes(project, tgt)
+        if not raised or any(common.handler_catches_class(handler, r_) for r_ in raised):
+            return False
+    return True
 
 
 def _in_nested_loop(body, target):
